@@ -98,6 +98,15 @@ subscript assignment: all refused)
     would make `return self.B` for `return self.CCCC` invisible to a theorem that passes values by position.
     `return <cm>.packer["FMT"].pack(e1, ..., en)` returns the argument tuple `[e1, ..., en]`,
     struct is not interpreted, FMT is emitted as `<name>_pack`.  No attribute is stored.
+  robustness against behaviour-preserving rewrites (all by local reasoning; the generated text changes, the
+  `gen_*_eq` proofs are written to survive it where they can):
+    `_` as a local name (Lean `us_`) ; `a if c else b` (arms must not hoist anything) ;
+    a NAME that is not a local and is bound exactly once in the module, by a top-level assignment to a
+      constant expression (ints, ord('c'), arithmetic on constants, tuples of those): its value ;
+    for x in (c1, ..., cn) / for x in NAME : a constant tuple of ints, unrolled like range ;
+    f(args) for a module-level function f not translated yet: translated on demand and emitted before the
+      caller (no `while`; parameters named like the caller's context/stream parameters keep that role, the
+      rest are ints; result type inferred) -- `helper`.
   Stream reads, calls and the raise-tests are hoisted in evaluation order in front of the
   statement; they are refused inside `and`/`or` operands after the first and inside conditional
   expressions, where Python would evaluate them conditionally.
@@ -164,7 +173,9 @@ class Func:
 def lname(n):
     # names the translator itself uses (temporaries t<k>_, attribute locals self_X, the unpacked values vs) and
     # the hole `_` cannot be Python locals
-    if n == "_" or n == "vs" or n.startswith("self_") or re.fullmatch(r"t\d+_", n) or not re.fullmatch(r"[A-Za-z_][A-Za-z0-9_]*", n):
+    if n == "_":
+        return "us_"                      # Python's conventional unused name; `_` is a hole in Lean
+    if n == "us_" or n == "vs" or n.startswith("self_") or re.fullmatch(r"t\d+_", n) or not re.fullmatch(r"[A-Za-z_][A-Za-z0-9_]*", n):
         raise Unsupported(None, f"local name {n!r} is reserved by the translator or not a plain identifier")
     return n + "_" if n in LEAN_KEYWORDS else n
 
@@ -230,7 +241,10 @@ class FuncTranslator:
             raise Unsupported(node, f"literal {node.value!r}")
         if isinstance(node, ast.Name):
             if node.id not in env.d:
-                raise Unsupported(node, f"name {node.id} is not a definitely assigned local here")
+                v = self.mod.const_value(node, node.id)      # a module-level integer constant (raises otherwise)
+                if type(v) is not int:
+                    raise Unsupported(node, f"module constant {node.id} is not an int")
+                return ilit(v), T_INT
             return lname(node.id), env.d[node.id]
         if isinstance(node, ast.Attribute):
             if isinstance(node.value, ast.Name) and node.value.id == "sys" and node.attr == "maxsize" \
@@ -284,6 +298,14 @@ class FuncTranslator:
             return "(" + f" {sym} ".join(out) + ")", T_BOOL
         if isinstance(node, ast.Call):
             return self.call(node, env, pre, hoist)
+        if isinstance(node, ast.IfExp):
+            # `a if c else b`: the test may hoist, the two arms are evaluated conditionally: nothing in them may hoist
+            c = self.cond(node.test, env, pre, hoist)
+            a, ta = self.expr(node.body, env, pre, False)
+            b, tb = self.expr(node.orelse, env, pre, False)
+            if ta != tb:
+                raise Unsupported(node, f"conditional expression of {ta} and {tb}")
+            return f"(if {c} then {a} else {b})", ta
         raise Unsupported(node, "expression " + type(node).__name__)
 
     def index(self, node, env, pre, hoist, allowed):
@@ -472,6 +494,8 @@ class FuncTranslator:
                 and self.mod.done[f.attr].cls is not None and self.mod.done[f.attr].cls == self.spec.cls:
             callee = self.mod.done[f.attr]
             args = [f.value] + args
+        if callee is None and isinstance(f, ast.Name) and f.id not in env.d:
+            callee = self.mod.helper(node, f.id, self.spec)          # a module-level helper, translated on demand
         if callee is None:
             raise Unsupported(node, "call of " + ast.unparse(f))
         formal = callee.formals
@@ -698,13 +722,22 @@ class FuncTranslator:
         it = st.iter
         if st.orelse or not isinstance(st.target, ast.Name):
             raise Unsupported(st, "for/else or a non-name loop variable")
-        if not (isinstance(it, ast.Call) and isinstance(it.func, ast.Name) and it.func.id == "range" and "range" not in env.d
-                and not it.keywords and len(it.args) in (1, 2) and all(is_nonneg_lit(a) for a in it.args)):
-            raise Unsupported(st, "for over anything but range(<literal>[, <literal>])")
-        self.mod.require_builtin(st, "range")
-        lo, hi = (0, it.args[0].value) if len(it.args) == 1 else (it.args[0].value, it.args[1].value)
-        if hi - lo > 16:
-            raise Unsupported(st, "range longer than 16")
+        if isinstance(it, ast.Call) and isinstance(it.func, ast.Name) and it.func.id == "range" and "range" not in env.d \
+                and not it.keywords and len(it.args) in (1, 2) and all(is_nonneg_lit(a) for a in it.args):
+            self.mod.require_builtin(st, "range")
+            lo_, hi_ = (0, it.args[0].value) if len(it.args) == 1 else (it.args[0].value, it.args[1].value)
+            values = list(range(lo_, hi_))
+        elif isinstance(it, (ast.Tuple, ast.List)) or (isinstance(it, ast.Name) and it.id not in env.d):
+            # a literal tuple/list of ints, or a module-level constant bound to one (never mutated: see const_value)
+            v = self.mod.const_eval(it, it) if not isinstance(it, ast.Name) else self.mod.const_value(it, it.id)
+            if not (isinstance(v, tuple) and all(type(e) is int for e in v)):
+                raise Unsupported(st, "for over something that is not a constant tuple of ints")
+            values = list(v)
+        else:
+            raise Unsupported(st, "for over anything but range(<literal>[, <literal>]) or a constant tuple of ints")
+        if len(values) > 16:
+            raise Unsupported(st, "more than 16 iterations")
+        lo, hi = 0, len(values)
         x = st.target.id
         outer_in_for = self.in_for
 
@@ -722,8 +755,8 @@ class FuncTranslator:
                 body = self.block(st.body, e, nxt, (after_out, nxt))
             finally:
                 self.in_for = outer_in_for
-            return self.count([f"-- L{st.lineno}: for {x} in {ast.unparse(it)}:   iteration {x} = {i}",
-                               f"let {lname(x)} : Int := {ilit(i)}"]) + body
+            return self.count([f"-- L{st.lineno}: for {x} in {ast.unparse(it)}:   iteration {x} = {values[i]}",
+                               f"let {lname(x)} : Int := {ilit(values[i])}"]) + body
 
         def after_out(env2):
             # code after the loop is outside the unrolled body again
@@ -751,15 +784,18 @@ class FuncTranslator:
         fuel = self.spec.fuels[idx]
         # the statements after an `if` are translated once per branch: the same loop reached with the
         # same definitely-assigned locals is the same auxiliary definition
-        key = (idx, tuple(env.d.items()))
+        # parameters of the auxiliary definition: the definitely assigned locals SORTED BY NAME, so that
+        # reordering independent assignments in front of the loop does not change its signature
+        ordered = sorted(env.d.items())
+        key = (idx, tuple(ordered))
         if key in self.loops:
             name = self.loops[key]
-            args = " ".join(lname(v) for v in env.d) + (" bs" if self.uses_stream else "")
+            args = " ".join(lname(v) for v, _ in ordered) + (" bs" if self.uses_stream else "")
             return [f"-- L{st.lineno}: while {ast.unparse(st.test)}:   fuel {fuel}", f"{name} ({fuel}) {args}"]
         self.nloops += 1
         name = f"{self.spec.lean_name}_while{idx + 1}" + ("" if not any(k[0] == idx for k in self.loops) else f"_{self.nloops}")
         self.loops[key] = name
-        params = [(lname(v), t) for v, t in env.d.items()]
+        params = [(lname(v), t) for v, t in ordered]
         args = " ".join(p for p, _ in params) + (" bs" if self.uses_stream else "")
         head = env.copy()
 
@@ -778,7 +814,7 @@ class FuncTranslator:
         sig = " ".join(f"({p} : {t})" for p, t in params) + (" (bs : List Nat)" if self.uses_stream else "")
         aux = [f"/-- `while {ast.unparse(st.test)}:` of `{self.spec.name}` (source line {st.lineno}), `fuel` iterations at most;",
                "    the statements after the loop are part of this definition -/",
-               f"def {name} (fuel : Nat) {sig} : {self.ret_type()} :=",
+               self.mod.attr_prefix() + f"def {name} (fuel : Nat) {sig} : {self.ret_type()} :=",
                "  match fuel with", "  | 0 => none", "  | fuel + 1 =>"]
         inner = self.emit_pre(pre) + [f"if {c} then ("] + ["  " + x for x in body] + [") else ("] + ["  " + x for x in exit_] + [")"]
         aux += ["    " + x for x in self.count(inner)]
@@ -855,7 +891,7 @@ class FuncTranslator:
         out += [f"/-- `{where}` (source lines {fn.lineno}-{fn.end_lineno})" + (
                     "; `self_` is the list of the object's int attributes, read by name: " + ", ".join(spec.attr_params)
                     if spec.attrs_in else "") + " -/",
-                f"def {spec.lean_name} {sig} : {self.ret_type()} :=".replace("  :", " :")]
+                self.mod.attr_prefix() + f"def {spec.lean_name} {sig} : {self.ret_type()} :=".replace("  :", " :")]
         out += ["  " + x for x in body]
         return out
 
@@ -864,6 +900,8 @@ class Module:
     def __init__(self, tree):
         self.tree = tree
         self.done = {}
+        self.pending = []         # helper definitions translated on demand, to be emitted before their caller
+        self.in_progress = []
         self.get_byte_checked = False
 
     def find(self, spec):
@@ -877,6 +915,104 @@ class Module:
         if len(fs) != 1:
             raise Unsupported(self.tree, f"function {spec.name}: {len(fs)} definitions")
         return fs[0]
+
+    def const_eval(self, at, e, depth=0):
+        """value of a constant expression: int literals, ord('c'), + - * // % & | ^ << >> and unary - + ~ on
+        constants, tuples/lists of constants (as a tuple), names of other module constants"""
+        if depth > 8:
+            raise Unsupported(at, "constant expression too deep")
+        if isinstance(e, ast.Constant) and type(e.value) is int:
+            return e.value
+        if isinstance(e, (ast.Tuple, ast.List)):
+            return tuple(self.const_eval(at, x, depth + 1) for x in e.elts)
+        if isinstance(e, ast.Name):
+            return self.const_value(at, e.id, depth + 1)
+        if isinstance(e, ast.Call) and isinstance(e.func, ast.Name) and e.func.id == "ord" and len(e.args) == 1 \
+                and not e.keywords and isinstance(e.args[0], ast.Constant) and type(e.args[0].value) is str \
+                and len(e.args[0].value) == 1:
+            self.require_builtin(at, "ord")
+            return ord(e.args[0].value)
+        if isinstance(e, ast.UnaryOp) and isinstance(e.op, (ast.USub, ast.UAdd, ast.Invert)):
+            v = self.const_eval(at, e.operand, depth + 1)
+            if type(v) is int:
+                return -v if isinstance(e.op, ast.USub) else v if isinstance(e.op, ast.UAdd) else ~v
+        if isinstance(e, ast.BinOp):
+            a, b = self.const_eval(at, e.left, depth + 1), self.const_eval(at, e.right, depth + 1)
+            if type(a) is int and type(b) is int:
+                op = type(e.op)
+                if op in (ast.LShift, ast.RShift) and not 0 <= b <= 256:
+                    raise Unsupported(at, "constant shift count")
+                if op in (ast.FloorDiv, ast.Mod) and b == 0:
+                    raise Unsupported(at, "constant division by zero")
+                fn = {ast.Add: lambda: a + b, ast.Sub: lambda: a - b, ast.Mult: lambda: a * b, ast.FloorDiv: lambda: a // b,
+                      ast.Mod: lambda: a % b, ast.BitAnd: lambda: a & b, ast.BitOr: lambda: a | b, ast.BitXor: lambda: a ^ b,
+                      ast.LShift: lambda: a << b, ast.RShift: lambda: a >> b}.get(op)
+                if fn is not None:
+                    return fn()
+        raise Unsupported(at, "not a constant expression: " + ast.unparse(e)[:60])
+
+    def const_value(self, at, name, depth=0):
+        """`name` is bound exactly once in the whole module, by a top-level `name = <constant expression>`
+        (no other store, def, class, import, global, parameter or loop target of that name anywhere)"""
+        binds = 0
+        for n in ast.walk(self.tree):
+            if isinstance(n, ast.Name) and n.id == name and not isinstance(n.ctx, ast.Load):
+                binds += 1
+            elif isinstance(n, (ast.FunctionDef, ast.AsyncFunctionDef, ast.ClassDef)) and n.name == name:
+                binds += 1
+            elif isinstance(n, ast.arg) and n.arg == name:
+                binds += 1
+            elif isinstance(n, (ast.Global, ast.Nonlocal)) and name in n.names:
+                binds += 1
+            elif isinstance(n, ast.alias) and n.name != "*" and (n.asname or n.name.split(".")[0]) == name:
+                binds += 1
+        top = [n for n in self.tree.body if isinstance(n, (ast.Assign, ast.AnnAssign))
+               and (([t for t in n.targets] if isinstance(n, ast.Assign) else [n.target]) and
+                    any(isinstance(t, ast.Name) and t.id == name
+                        for t in (n.targets if isinstance(n, ast.Assign) else [n.target])))]
+        if len(top) != 1 or binds != 1 or (isinstance(top[0], ast.Assign) and len(top[0].targets) != 1) or top[0].value is None:
+            raise Unsupported(at, f"name {name} is neither a definitely assigned local nor a module-level constant bound exactly once")
+        for n in self.tree.body:                       # a star import after the assignment could rebind it
+            if isinstance(n, ast.ImportFrom) and any(a.name == "*" for a in n.names) and n.lineno > top[0].lineno:
+                raise Unsupported(at, f"star import after the definition of {name}")
+        return self.const_eval(at, top[0].value, depth)
+
+    def helper(self, node, name, caller):
+        """a module-level function called by a translated function and not translated yet: translated on demand
+        (parameters named like the caller's context/stream parameters play that role, the others are ints; the
+        result type is the first of Int, bytes, str, list for which the translation succeeds) and emitted in front
+        of the caller.  Returns None when there is no such function."""
+        fs = [n for n in self.tree.body if isinstance(n, ast.FunctionDef) and n.name == name]
+        if len(fs) != 1 or name in self.in_progress or len(self.in_progress) >= 3:
+            return None
+        for n in ast.walk(self.tree):                  # the name denotes that def and nothing else
+            if isinstance(n, ast.Name) and n.id == name and not isinstance(n.ctx, ast.Load):
+                return None
+        params = [a.arg for a in fs[0].args.args]
+        stream = caller.stream if caller.stream in params else None
+        self.in_progress.append(name)
+        try:
+            last = None
+            for ret in (T_INT, T_BYTES, T_STR, T_LIST):
+                nwh = len([n for n in ast.walk(fs[0]) if isinstance(n, ast.While)])
+                if nwh:
+                    raise Unsupported(node, f"helper {name} has a while loop (no fuel)")
+                spec = Func(name, ctx=caller.ctx, stream=stream, ret=ret)
+                try:
+                    ft = FuncTranslator(self, spec, fs[0])
+                    lines = ft.translate()
+                except Unsupported as e:
+                    last = e
+                    continue
+                self.pending += lines + [""]
+                self.done[name] = spec
+                return spec
+            raise Unsupported(node, f"helper {name}: {last}")
+        finally:
+            self.in_progress.pop()
+
+    def attr_prefix(self):
+        return f"@[{self.attr}] " if getattr(self, "attr", None) else ""
 
     def require_builtin(self, node, name):
         """the module does not rebind a builtin the translator interprets (assignment, def, class, import)"""
@@ -918,20 +1054,24 @@ class Module:
         self.get_byte_checked = True
 
 
-def translate(repo, relpath, lean_module, specs):
+def translate(repo, relpath, lean_module, specs, attr=None):
+    """attr: name of a registered simp attribute (lean/AgVerif/Model/PyAttr.lean) put on every generated def"""
     path = os.path.join(repo, relpath)
     tree = ast.parse(open(path, encoding="utf-8").read())
     mod = Module(tree)
+    mod.attr = attr
     out = ["/- GENERATED by gen/py2lean.py from " + relpath + " -- do not edit.",
            "   Statement-by-statement translation of: " + ", ".join((s.cls + "." if s.cls else "") + s.name for s in specs) + ".",
            "   Conventions and the translated subset: module docstring of gen/py2lean.py;",
            "   meaning of the operators: AgVerif/Model/PyInt.lean. -/",
-           "import AgVerif.Model.PyInt",
+           "import AgVerif.Model.PyInt"] + (["import AgVerif.Model.PyAttr"] if attr else []) + [
            "set_option linter.unusedVariables false",
            f"namespace AgVerif.Gen.{lean_module}", ""]
     for spec in specs:
         ft = FuncTranslator(mod, spec, mod.find(spec))
-        out += ft.translate() + [""]
+        lines = ft.translate()
+        out += mod.pending + lines + [""]
+        mod.pending = []
         mod.done[spec.name] = spec
     out += [f"end AgVerif.Gen.{lean_module}", ""]
     return {lean_module: "\n".join(out)}
